@@ -173,7 +173,7 @@ structure PathArg where
 inductive Resolved where
   | missing                       -- `click.Path(exists=True)` fails
   | outside                       -- exists (the parent of the root does) but is not below the root
-  | at (p : List String)          -- the entry at `p` below the root
+  | found (p : List String)       -- the entry at `p` below the root
   deriving DecidableEq, Repr
 
 def isDirNode : Option ENode → Bool
@@ -183,7 +183,7 @@ def isDirNode : Option ENode → Bool
 /-- path resolution as the kernel does it, from the directory `cur`: every component but the last
     is looked up in a *directory*; `..` of the root leaves the project; a symlink is a dangling one -/
 def resolveFrom (tree : ETree) : List String → List String → Resolved
-  | cur, [] => .at cur
+  | cur, [] => .found cur
   | cur, s :: rest =>
     if !isDirNode (nodeAt tree cur) then .missing
     else if s == "." || s == "" then resolveFrom tree cur rest
@@ -199,7 +199,7 @@ def resolveArg (tree : ETree) (cwd : List String) (a : PathArg) : Resolved :=
   resolveFrom tree (if a.abs then [] else cwd) a.segs
 
 def Resolved.path? : Resolved → Option (List String)
-  | .at p => some p
+  | .found p => some p
   | _ => none
 
 /-- the project-relative names the arguments denote (directories and non-covered files are among
